@@ -334,6 +334,13 @@ def run_case(c, d):
     if d['prof'] == 'integer-lags':
         return integer_case(c, d, rng)
     k = rc_profile(rng, p, d['prof'], cplx)
+    if d.get('i', 0) % 9 == 4 and p >= 2:
+        # exactly vanishing coefficients are admissible (|k| < 1): the last one or two, or one in the middle
+        k = np.array(k, copy=True)
+        if d['i'] % 2:
+            k[-1 - (d['i'] // 9) % 2:] = 0
+        else:
+            k[p // 2] = 0
     r0 = 10.0 ** d['r0exp'] * rng.uniform(1, 9)
     g = _gain(k)
     if g > GMAX:
